@@ -308,7 +308,7 @@ PROPS['C01'].update({
 
 PROPS['C17'].update({
     'level': 'other',
-    'units': ['pwl_schemas', 'pwl_from_poly'],
+    'units': ['pwl_schemas', 'pwl_from_poly', 'pwl_inf_norm'],
     'technique': 'Verus contracts on the extracted activation schemas of src/distill/schema.rs: forall dim, row, parameters, x: tree_fn(schema, x) == textbook definition (proved through the AffTree / Tree / AffFunc contracts) + bounded replay (bc schema) for the remaining generators',
     'level_text': ('Mixed. PROVED modulo "f64 = reals" (Verus, every dimension, every component index, every finite parameter value, every input incl. breakpoints): partial_ReLU, partial_leaky_ReLU, '
                    'partial_threshold, partial_hard_tanh (min <= max), partial_hard_shrink and partial_hard_sigmoid build a well-formed tree whose denoted function tree_fn(root, x) changes exactly the '
@@ -317,14 +317,15 @@ PROPS['C17'].update({
                    'the indicator of "x_c is maximal" (ties count) for every dim >= 2, c < dim (chain tree: prelude/chain_spec.rs). All have terminals of one common output dimension. '
                    'AffTree::from_poly(poly, f_true, f_false) returns Err exactly on a dimension mismatch and otherwise a well-formed chain tree with tree_fn(x) == f_true(x) for x in the polytope (all rows hold, closed), '
                    '== f_false(x) outside when an else-function is given and undefined outside when not (unit pwl_from_poly) - the form used for pre- and post-conditions. '
-                   'BOUNDED only (bc schema, exhaustive small dims on a lattice hitting all breakpoints and ties): inf_norm, from_slice + remove_axes.'),
+                   'inf_norm(dim, min, max) (unit pwl_inf_norm, every dim >= 1, one or both finite bounds): a well-formed chain tree that denotes [1] on the closed box min <= x_i <= max and [0] outside (rows -e_i.x <= -min then e_i.x <= max, built row by row with the same invariant and step lemmas as from_poly - prelude/chain_build_spec.rs, now stated over an abstract list of row conditions). '
+                   'BOUNDED only (bc schema, exhaustive small dims on a lattice hitting all breakpoints and ties): from_slice + remove_axes.'),
     'design_ref': 'DESIGN.md §4 C17',
     'assumptions': ASSUME_COMMON + ASSUME_SLAB + ASSUME_ND + ASSUME_PWL + ASSUME_BC + [
         'rule F1: float literals / negations in schema.rs are replaced by flit / fneg / fdiv / fle helpers with exact-real contracts (each site listed as //@bodysub in units/pwl_schemas.rs); parameters are finite (not NaN / infinite)',
         'the first key handed out by a fresh slab is 0 (Slab::fresh), which the generators rely on (add_child_node(0, ..))',
         'rule I13: `(0..dim).filter(|x| *x != clazz)` in class_characterization is the verified helper range_except_vec (ascending indices below dim except clazz); `iter.next().unwrap()` is its element 0 and `for idx in iter` the index loop from 1',
         'rule I14 (unit pwl_from_poly): `poly.row_iter()` with `.as_function().to_owned()` on each item is the TRUSTED helper poly_row_fns (row j as an owned one-row function with the same predicate); `iter.next().unwrap()` is its element 0, `for decision in iter` the index loop from 1; from_poly is verified for polytopes with fewer than usize::MAX rows (capacity arithmetic n_constraints() + 1)',
-        '`i as f64` (argmax terminals) is the helper fidx with the assumed contract "exact" (indices are far below 2^53); termination of the work-stack loop of argmax is not proved',
+        'unit pwl_inf_norm: `minimum.map(|min| ..)` / `maximum.map(|max| ..)` (closures) are written as the equivalent match expressions; `first.row_iter()` / `aff.row_iter()` with `.to_owned()` are the TRUSTED helper aff_row_fns (row j as an owned one-row function with the same predicate), `row_iter.next().unwrap()` its element 0, the `for` loops index loops; the literals 0. / 1. are flit helpers; verified for dim < usize::MAX / 2', '`i as f64` (argmax terminals) is the helper fidx with the assumed contract "exact" (indices are far below 2^53); termination of the work-stack loop of argmax is not proved',
     ],
 })
 
